@@ -152,10 +152,10 @@ let handle (x : sx) : unit =
     let (txt, mr) = pcase_sql { pc_id = z_of id; pc_kind = kind_of kind; pc_hints = hints_of h; pc_ctx = ctx_of c;
                                 pc_ms = list_of matcher_of ms; pc_full = tbl_of full } in
     Printf.printf "sql %d %s %s\n" (int_of id) (ostr txt) (b01 mr)
-  | L [A "prof"; id; table; from; to_; cluster; sels] ->
+  | L [A "prof"; id; table; from; to_; cluster; sels; full] ->
     Printf.printf "prof %d %s\n" (int_of id)
       (ostr (fcase_sql { fc_id = z_of id; fc_table = str_of table; fc_from_ns = z_of from; fc_to_ns = z_of to_;
-                         fc_cluster = bool_of cluster; fc_sels = list_of selector_of sels }))
+                         fc_cluster = bool_of cluster; fc_sels = list_of selector_of sels; fc_full = tbl_of full }))
   | L [A "lbl"; id; cluster; fps; from; to_] ->
     Printf.printf "lbl %d %s\n" (int_of id) (ostr (render (labels_fetch (bool_of cluster) (list_of n_of fps) (z_of from) (z_of to_)) false))
   | L [A "sel"; id; cluster; h; ms; rows; fetch; obs] ->
